@@ -13,7 +13,7 @@ from sa.report import Ctx
 from .common import generic_sweeps
 from sa.stutter import stutter_paths
 
-from .sat_common import SatRoles, check_add_sites, check_assumption_assertion, check_assign, check_backtrack, check_heap_flags, check_variable_universe, check_input_copy
+from .sat_common import SatRoles, check_add_sites, check_assumption_assertion, check_analysis, check_assign, check_backtrack, check_bcp, check_heap_flags, check_variable_universe, check_input_copy
 
 EXPLANATION = (
     "Decides structural necessary conditions of 'INFEASIBLE only without a model / always returns within budgets' on "
@@ -44,6 +44,8 @@ def run(ctx: Ctx):
     check_heap_flags(ctx, "C02-O8")
     check_variable_universe(ctx, "C02-O10")
     check_assign(ctx, "C02-O11")
+    check_bcp(ctx, "C02-O12")
+    check_analysis(ctx, "C02-O13")
     check_input_copy(ctx, "C02-O9")
     generic_sweeps(ctx, skip_stutter_modules=("solvor/sat.py",))
 
@@ -413,6 +415,16 @@ def _v_assign_level_of_previous(tree):
     M.replace_expr(g, lambda e: M.src_is(e, "len(trail_lim)"), M.expr("len(trail_lim) - 1"))
 
 
+def _v_bcp_unit_without_search(tree):
+    g = M.find_func(tree, "solve_sat.propagate")
+    M.replace_stmt(g, lambda s: isinstance(s, ast.If) and M.src_is(s.test, "found"), [])
+
+
+def _v_analysis_keeps_true_literal(tree):
+    g = M.find_func(tree, "solve_sat.analyze.add_lit")
+    M.replace_expr(g, lambda e: isinstance(e, ast.IfExp) and M.src_has(e, "lit_neg(lit)"), M.expr("lit"))
+
+
 def _v_flag_kept_on_skip(tree):
     g = M.find_func(tree, "solve_sat.pick_var")
     M.replace_stmt(g, lambda s: M.src_is(s, "in_heap[var] = False"), [])
@@ -467,6 +479,8 @@ VARIANTS = [
     M.Variant("twin: input normalisation that tests the de-duplicated literals", SAT, _t_tautology_test_on_kept_clause, None),
     M.Variant("variable count taken from the clauses only (original defect)", SAT, _v_universe_from_clauses_only, "C02-O10"),
     M.Variant("assign records the previous decision level", SAT, _v_assign_level_of_previous, "C02-O11"),
+    M.Variant("propagation treats a clause as unit although a replacement watch was found", SAT, _v_bcp_unit_without_search, "C02-O12"),
+    M.Variant("conflict analysis puts true literals into the learned clause", SAT, _v_analysis_keeps_true_literal, "C02-O13"),
     M.Variant("twin: reformat only", SAT, _t_reformat, None),
     M.Variant("twin: rename locals of the backtrack routine", SAT, _t_rename, None),
     M.Variant("twin: comparisons written the other way round", SAT, _t_budget_flipped, None),
